@@ -62,7 +62,7 @@ func (d DynFixedPoint) CreateInstruction(name string) (Opcode, error) {
 		opType = FPDIV
 	}
 
-	return FixedPoint{fpName: name, s: s, f: f, opType: opType, pipeline: new(uint8)}, nil
+	return FixedPoint{fpName: name, s: s, f: f, opType: opType}, nil
 
 }
 
